@@ -336,3 +336,57 @@ Proof.
   exists f_c14_1_script, (fun _ => 1000000). cbv zeta.
   destruct http_wait_lt_hint_witness as [H1 [H2 [_ H4]]]. repeat split; assumption.
 Qed.
+
+(** * Accumulated elapsed time across (throttled) waits *)
+Section Accumulated.
+  Variables elapsed1 elapsed2 backoff : nat -> Z.
+  Variable ctx_fires : nat -> Z -> bool.
+  Variable cfg : config.
+  Hypothesis Hmax : max_elapsed cfg <> 0.
+
+  Notation loop := (loop elapsed1 elapsed2 backoff ctx_fires cfg).
+  Notation give_up := (give_up elapsed1 elapsed2 backoff ctx_fires (max_elapsed cfg)).
+
+  Lemma give_up_none k thr :
+    give_up k thr = None -> elapsed1 k <= max_elapsed cfg /\ elapsed2 k + thr <= max_elapsed cfg.
+  Proof.
+    unfold Spec.give_up. apply Z.eqb_neq in Hmax. rewrite Hmax. cbn [negb andb].
+    destruct (elapsed1 k >? max_elapsed cfg) eqn:A; [discriminate|].
+    destruct (elapsed2 k + thr >? max_elapsed cfg) eqn:B; [discriminate|].
+    intros _. rewrite Z.gtb_ltb in A, B. apply Z.ltb_ge in A, B. split; assumption.
+  Qed.
+
+  Lemma loop_within_limit outs : forall k acc,
+    acc <= elapsed1 k ->
+    (forall j, elapsed1 (k + j) <= elapsed2 (k + j) /\
+               elapsed2 (k + j) + Z.max (throttle_of (nth j outs OFinal)) (backoff (k + j)) <= elapsed1 (S (k + j))) ->
+    forall i, (i < length (waits (loop k outs)))%nat ->
+      acc + sumz (firstn i (waits (loop k outs))) + throttle_of (nth i outs OFinal) <= max_elapsed cfg.
+  Proof.
+    induction outs as [|o rest IH]; intros k acc Hacc Hclk i Hi.
+    - cbn in Hi. lia.
+    - destruct o as [p|thr|]; try (cbn in Hi; lia).
+      rewrite loop_retry in *. destruct (give_up k thr) eqn:G; [cbn in Hi; lia|].
+      apply give_up_none in G as [G1 G2].
+      pose proof (Hclk 0%nat) as [C1 C2]. rewrite Nat.add_0_r in C1, C2. cbn [nth throttle_of] in C2.
+      destruct i as [|i].
+      + cbn [firstn sumz fold_right nth throttle_of]. lia.
+      + cbn [waits firstn sumz fold_right nth] in *.
+        assert (Hi' : (i < length (waits (loop (S k) rest)))%nat) by (cbn in Hi; lia).
+        specialize (IH (S k) (acc + Z.max thr (backoff k)) ltac:(lia)).
+        assert (Hclk' : forall j, elapsed1 (S k + j) <= elapsed2 (S k + j) /\
+                  elapsed2 (S k + j) + Z.max (throttle_of (nth j rest OFinal)) (backoff (S k + j)) <= elapsed1 (S (S k + j))).
+        { intros j. specialize (Hclk (S j)). cbn [nth] in Hclk.
+          replace (k + S j)%nat with (S k + j)%nat in Hclk by lia. exact Hclk. }
+        specialize (IH Hclk' i Hi'). unfold sumz in *. lia.
+  Qed.
+
+  Lemma run_within_limit outs :
+    enabled cfg = true -> Clock_advances elapsed1 elapsed2 backoff outs ->
+    Waits_within_limit (max_elapsed cfg) outs (retry_run elapsed1 elapsed2 backoff ctx_fires cfg outs).
+  Proof.
+    intros E [H0 Hc] i Hi. rewrite (run_enabled _ _ _ _ _ _ E) in *.
+    pose proof (loop_within_limit outs 0%nat 0 H0) as H. cbn [Nat.add] in H.
+    specialize (H Hc i Hi). lia.
+  Qed.
+End Accumulated.
